@@ -3,6 +3,8 @@
 from __future__ import annotations
 
 import ast
+import json
+import os
 import re
 
 from .. import AnalysisError
@@ -11,6 +13,7 @@ from ..astutil import bind_call, deref, names_in, walk_stmts
 from ..consteval import ConstEval, NotConstant
 from ..domains.nullness import NullDomain, VV
 from ..model import src_of
+from ..report import VERIF as VERIF_DIR
 from ..schema import dict_attr_names
 from .offsets import check_writer_offsets
 
@@ -177,6 +180,46 @@ def run(ctx):
             ctx.violate("R2", f"{attr}['{key}'] is read from `{rlab}` but written as `{wl}`", wp[2], wp[1], construct=f"{attr}[{key!r}]: reader {rlab!r} writer {wl!r}")
     ctx.floor("R2", npair, 6, "attribute-key/label pairs present on both sides")
 
+    # labels the reader needs unconditionally must not depend, on the writer side, on an attribute the writer declares
+    # optional: otherwise a successfully written file cannot be read back
+    from ..consteval import ConstEval as _CE
+    from .c17 import declared_lists as _declared
+
+    req = set()
+    for mod_, f_, dname_, lists_, dnode_, fmt_ in _declared(prog, _CE(prog)):
+        if f_ is do:
+            req = set(lists_.get("required", []))
+    unconditional = set()
+    for st in lo.body:
+        if isinstance(st, (ast.If, ast.For, ast.While, ast.Try, ast.With)):
+            continue
+        for n in ast.walk(st):
+            if isinstance(n, ast.Subscript) and isinstance(n.ctx, ast.Load) and isinstance(n.value, ast.Name) and n.value.id == "fchk" and isinstance(n.slice, ast.Constant) and isinstance(n.slice.value, str) and n.slice.value not in header_keys:
+                unconditional.add(n.slice.value)
+    pmw = prog.parents(do)
+    dparam = do.posparams[1]
+    by_attr = {}
+    for lab, wnode in W.items():
+        if wnode is None or lab not in unconditional:
+            continue
+        cur = wnode
+        while id(cur) in pmw:
+            par = pmw[id(cur)]
+            if isinstance(par, ast.If) and any(cur is b for b in par.body):
+                t = par.test
+                if isinstance(t, ast.Compare) and len(t.ops) == 1 and isinstance(t.ops[0], ast.IsNot) and isinstance(t.comparators[0], ast.Constant) and t.comparators[0].value is None and isinstance(t.left, ast.Attribute) and isinstance(t.left.value, ast.Name) and t.left.value.id == dparam:
+                    by_attr.setdefault(t.left.attr, []).append((lab, par))
+            cur = par
+    nreq = 0
+    for lab in sorted(unconditional & set(W)):
+        nreq += 1
+    for attr, items in sorted(by_attr.items()):
+        labs = sorted({l for l, _ in items})
+        if attr in req:
+            ctx.ok("R2", f"fields {labs[:3]}... are written only when `{attr}` is set, and `{attr}` is a required attribute", f"{do.module.relpath}:{items[0][1].lineno}")
+        else:
+            ctx.violate("R2", f"when `{attr}` is None the FCHK writer omits {labs}, which the FCHK reader requires unconditionally, although `{attr}` is declared optional (required: {sorted(req)}): the file is written and cannot be read back", do, items[0][1], construct=f"fchk writer: reader-required fields depend on optional {attr}")
+    ctx.floor("R2", nreq, 8, "labels the reader requires that the writer emits")
     # ------------------------------------------------------------------ R3
     ctx.rule("R3", "zero-based indices are written one-based", "bonds / shells / orbitals are attached to the neighbouring atom after reload")
     check_writer_offsets(ctx, "R3")
@@ -440,9 +483,58 @@ def run(ctx):
             else:
                 ctx.violate("R12", f"{short}: `{attr}` is read with unit factor `{_show_unit(rt)}` but written with `{_show_unit(wt)}`; after save and reload the value is rescaled", do, do.node, construct=f"{short} {attr}: read {_show_unit(rt)} / written {_show_unit(wt)}")
     ctx.floor("R12", npairs, 25, "attributes both read and written by one format")
+    check_count_fields(ctx, "R13")
+
+    # ------------------------------------------------------------------ R14
+    ctx.rule("R14", "formats read by splitting at white space are written with a literal separator between neighbouring fields", "for a large system a counter fills its field and touches its neighbour: the written line has fewer tokens and cannot be read back")
+    with open(os.path.join(VERIF_DIR, "spec", "layouts.json")) as fh:
+        column_formats = set(json.load(fh)) - {"_comment"}
+    ntpl = 0
+    for short in prog.format_modules():
+        lo_, do_ = prog.format_op(short, "load_one"), prog.format_op(short, "dump_one")
+        if lo_ is None or do_ is None or short in column_formats or short == "fchk":
+            continue  # pdb / sdf / gromacs / fchk: column layouts, decided by C03-R2 / C02-R2
+        rfun = [g for g in prog.callees_closure([lo_]) if g.module is lo_.module]
+        splits = sum(1 for g in rfun for n in g.own_nodes() if isinstance(n, ast.Call) and isinstance(n.func, ast.Attribute) and n.func.attr == "split" and not n.args)
+        if not splits:
+            continue
+        for g in [h for h in prog.callees_closure([do_]) if h.module is do_.module]:
+            for n in g.own_nodes():
+                if not isinstance(n, ast.JoinedStr):
+                    continue
+                fv = [v for v in n.values if isinstance(v, ast.FormattedValue)]
+                if len(fv) < 2:
+                    continue
+                ntpl += 1
+                bad = None
+                for a, b in zip(n.values, n.values[1:]):
+                    if isinstance(a, ast.FormattedValue) and isinstance(b, ast.FormattedValue):
+                        spec = "".join(str(x.value) for x in b.format_spec.values if isinstance(x, ast.Constant)) if b.format_spec is not None else ""
+                        # a left-aligned or string field after a number still starts with its first character
+                        if spec and spec[-1] in "dfeEgG" and not spec.startswith(" "):
+                            bad = (a, b, spec)
+                            break
+                if bad:
+                    ctx.violate("R14", f"{short} writer: `{{{src_of(bad[0].value)}}}` is followed by `{{{src_of(bad[1].value)}:{bad[2]}}}` without a separator; the {short} reader splits lines at white space, so when the second number fills its {bad[2]} field the two tokens merge", g, n)
+                else:
+                    ctx.ok("R14", f"{short}: `{src_of(n)[:60]}` separates its fields literally", f"{g.module.relpath}:{n.lineno}", sample=(ntpl % 10 == 1), nontrivial=False)
+    ctx.floor("R14", ntpl, 18, "multi-field templates in writers of white-space formats")
+
+
+def check_count_fields(ctx, rid):
+    from .intfields import check_integer_fields
+
+    ctx.rule(rid, "electron counts, charges and multiplicities go into integer fields rounded, and never as floats into an integer-only format code", "9.9999999 electrons are written as 9 (the reloaded object has another charge), or a float electron count makes the writer fail after the file was opened")
+    check_integer_fields(ctx, rid, _writer_funcs(ctx.prog))
 
 
 def _show_unit(tag):
     from ..domains.units import show
 
     return show(frozenset(tuple(m) for m in tag))
+
+
+def _writer_funcs(prog):
+    roots = [g for short in prog.format_modules() for op in ("dump_one", "dump_many") for g in [prog.format_op(short, op)] if g is not None]
+    roots += [g for short, m in prog.input_modules().items() for g in [prog.funcs.get(f"{m.name}.write_input")] if g is not None]
+    return prog.callees_closure(roots)
